@@ -78,6 +78,7 @@ impl<F: Float, D: Distance<F>> NearestNeighbourIndex<F> for KdTreeIndex<'_, F, D
                 &|a, b| self.1.rdistance(aview1(a), aview1(b)),
             )?
             .into_iter()
+            .filter(|(dist, _)| *dist < range)
             .map(|(_, (pt, pos))| (pt.reborrow(), *pos))
             .collect())
     }
